@@ -11,7 +11,7 @@ from __future__ import annotations
 import io
 
 from ..monitors import contracts
-from ..monitors.reach import Reach
+from ..monitors.reach import Reach, opt
 
 ID = "C02"
 RULE = (
@@ -36,8 +36,8 @@ EXHAUSTIVE_SUBSPACES = {
     "thorough": ["every Unicode scalar value 0..0x10FFFF (minus the five excluded characters) as one-character and embedded name/filename/value"],
 }
 TIERS = {
-    "quick": dict(nshards=16, sweep_hi=0x300, sweep_sample=2500, random_lists=900),
-    "thorough": dict(nshards=64, sweep_hi=0x110000, sweep_sample=0, random_lists=12000),
+    "quick": dict(nshards=16, sweep_hi=0x300, sweep_sample=2500, random_lists=900, big_values=2),
+    "thorough": dict(nshards=64, sweep_hi=0x110000, sweep_sample=0, random_lists=12000, big_values=12),
 }
 EXCL = {'"', "\\", "\r", "\n"}
 WEIGHTED = [";", "=", "*", "'", "%", " ", "\x00", "\x85", " ", "́", "\U0001f40d", "\t", "&", "+", "#", "?", "/", ":", ",", "é", "ß", "\x7f", "\x1f", "%2", "%41", "a", "b", "Z", "0", "-", "_", "."]
@@ -345,14 +345,14 @@ def run(shard, rec, rng):
     from werkzeug import urls as U
 
     reach = Reach(rec, {
-        "MultipartEncoder.send_event": M.MultipartEncoder.send_event,
-        "parse_options_header": H.parse_options_header,
-        "MultiPartParser.parse": FP.MultiPartParser.parse,
-        "MultiPartParser.get_part_charset": FP.MultiPartParser.get_part_charset,
-        "FormDataParser._parse_urlencoded": FP.FormDataParser._parse_urlencoded,
-        "_urlencode": U._urlencode,
-        "stream_encode_multipart": T.stream_encode_multipart,
-        "EnvironBuilder.get_environ": T.EnvironBuilder.get_environ,
+        "MultipartEncoder.send_event": opt(lambda: M.MultipartEncoder.send_event),
+        "parse_options_header": opt(lambda: H.parse_options_header),
+        "MultiPartParser.parse": opt(lambda: FP.MultiPartParser.parse),
+        "MultiPartParser.get_part_charset": opt(lambda: FP.MultiPartParser.get_part_charset),
+        "FormDataParser._parse_urlencoded": opt(lambda: FP.FormDataParser._parse_urlencoded),
+        "_urlencode": opt(lambda: U._urlencode),
+        "stream_encode_multipart": opt(lambda: T.stream_encode_multipart),
+        "EnvironBuilder.get_environ": opt(lambda: T.EnvironBuilder.get_environ),
     })
     cfg = TIERS[shard["_tier"]]
     idx, of = shard["index"], shard["of"]
@@ -373,6 +373,14 @@ def run(shard, rec, rng):
         # values and urlencoded keys: all of Unicode
         check_parts(W, rec, [("field", "k", None, None, c + "x" + c)], "BOUND", paths=("events",))
         check_urlencoded(W, rec, [(c, c), ("a" + c, ""), (c, "b" + c + "c")])
+    # ---- big values: the parser reads 64 KiB at a time; multi-byte characters must survive wherever the cut falls
+    for i in range(cfg.get("big_values", 2)):
+        pad = rng.randrange(0, 9)
+        big = "p" * pad + rng.choice(["é", "☃", "\U0001f40d", "aé"]) * rng.choice([33000, 45000])
+        parts = [("field", "big", None, None, big), ("file", "f", "n.bin", "application/octet-stream", big.encode("utf-8")[:70000]), ("field", "after", None, None, "ü")]
+        rec.observe("big_value_cases")
+        check_parts(W, rec, parts, rand_boundary(rng), paths=("encode_multipart", "builder_multipart"))
+        check_urlencoded(W, rec, [("big", big[:40000]), ("k", "v")])
     # ---- random part lists
     for i in range(cfg["random_lists"]):
         boundary = rand_boundary(rng)
